@@ -333,7 +333,20 @@ impl<M: wire::Decode> wire::Decode for Frame<M> {
             Ok(StreamKind::Gossip) => {
                 let data = varint::payload::decode(reader)?;
                 let mut cursor = io::Cursor::new(data);
-                let msg = M::decode(&mut cursor)?;
+                // Nb. The payload was read in full. If the message runs past its end,
+                // the message is invalid; it's not that we are waiting for more data.
+                // Don't let this surface as an end-of-file error, which callers take
+                // to mean that the frame is incomplete.
+                let msg = M::decode(&mut cursor).map_err(|err| {
+                    if err.is_eof() {
+                        wire::Error::Io(io::Error::new(
+                            io::ErrorKind::InvalidData,
+                            "gossip message is truncated",
+                        ))
+                    } else {
+                        err
+                    }
+                })?;
                 let frame = Frame {
                     version,
                     stream,
@@ -373,6 +386,38 @@ impl<M: wire::Encode> wire::Encode for Frame<M> {
 #[cfg(test)]
 mod test {
     use super::*;
+    use crate::deserializer::Deserializer;
+    use crate::service::message::ZeroBytes;
+    use crate::wire::{Decode as _, Encode as _};
+
+    #[test]
+    fn test_truncated_gossip_message() {
+        let pong = Message::Pong {
+            zeroes: ZeroBytes::new(3),
+        };
+        let msg = wire::serialize(&pong);
+
+        // Every proper prefix of the message, in a complete frame, is an error,
+        // and is not mistaken for an incomplete frame.
+        for len in 0..msg.len() {
+            let mut bytes = Vec::new();
+            PROTOCOL_VERSION_STRING.encode(&mut bytes).unwrap();
+            StreamId::gossip(Link::Outbound).encode(&mut bytes).unwrap();
+            varint::payload::encode(&msg[..len], &mut bytes).unwrap();
+
+            let err = Frame::<Message>::decode(&mut io::Cursor::new(&bytes)).unwrap_err();
+            assert!(!err.is_eof(), "{err}");
+
+            let mut de = Deserializer::<1024, Frame>::new(1024);
+            de.input(&bytes).unwrap();
+            assert!(de.deserialize_next().is_err());
+
+            // Whereas an incomplete frame is not an error.
+            let mut de = Deserializer::<1024, Frame>::new(1024);
+            de.input(&bytes[..bytes.len() - 1]).unwrap();
+            assert!(matches!(de.deserialize_next(), Ok(None)));
+        }
+    }
 
     #[test]
     fn test_stream_id() {
